@@ -212,6 +212,17 @@ def extract_consts():
     rx = re.findall(r're\.search\(r?"([^"]*)"', src_n) + re.findall(r"re\.search\(r?'([^']*)'", src_n)
     L.append("def nameplate_regexes : List String := [" + ", ".join(lean_str(x) for x in rx) + "]")
     L.append(f"def validate_code_rejects_space : Bool := {'true' if (chr(39)+' '+chr(39) in src_c or chr(34)+' '+chr(34) in src_c) else 'false'}")
+    # what `\d` means in the `str` regexes above: the code points with str.isdecimal() (Unicode Nd) of the
+    # interpreter that runs the real code, as inclusive ranges (the C19 harness compares this with `re` itself)
+    rngs, start = [], None
+    for cp in range(0x110000 + 1):
+        d = cp < 0x110000 and chr(cp).isdecimal()
+        if d and start is None:
+            start = cp
+        elif not d and start is not None:
+            rngs.append((start, cp - 1))
+            start = None
+    L.append("def unicode_decimal_ranges : List (Nat × Nat) := [" + ", ".join(f"({a}, {b})" for a, b in rngs) + "]")
     from wormhole import _boss
     src_b = inspect.getsource(_boss.Boss.got_message)
     rx = re.findall(r're\.search\(r"([^"]*)"', src_b) + re.findall(r"re\.search\(r'([^']*)'", src_b)
@@ -233,6 +244,15 @@ def extract_words():
     raw_od = [wl.byte_to_odd_word[bytes([i])] for i in range(256)]
     L.append("def rawEven : List String := [" + ", ".join(lean_str(w) for w in raw_ev) + "]")
     L.append("def rawOdd : List String := [" + ", ".join(lean_str(w) for w in raw_od) + "]")
+    # the same lower-cased tables as lists of Unicode code points (Python `str` = sequence of code points);
+    # this is the form the C19 model computes with (kernel-friendly: no String internals)
+    def cps(w):
+        return "[" + ", ".join(str(ord(c)) for c in w) + "]"
+    L.append("def evenCP : List (List Nat) := [" + ", ".join(cps(w) for w in ev) + "]")
+    L.append("def oddCP : List (List Nat) := [" + ", ".join(cps(w) for w in od) + "]")
+    # the sets `get_completions` iterates over (built by a separate loop in _wordlist.py), sorted
+    L.append("def evenSetCP : List (List Nat) := [" + ", ".join(cps(w) for w in sorted(wl.even_words_lowercase)) + "]")
+    L.append("def oddSetCP : List (List Nat) := [" + ", ".join(cps(w) for w in sorted(wl.odd_words_lowercase)) + "]")
     L.append("end WV.Gen.Words")
     return "\n".join(L) + "\n"
 
@@ -583,6 +603,120 @@ def lean_hint_guards(data):
     return "\n".join(L) + "\n"
 
 
+# ---------------------------------------------------------------------------
+# C06: transit record layer (constants by introspection, call skeletons by ast)
+
+C06_SKELETON_METHODS = ["dataReceived", "dataReceivedRECORDS", "_decrypt_record", "send_record", "recordReceived",
+                        "receive_record", "_deliverRecords", "close", "connectionLost", "connectConsumer",
+                        "_writeToConsumer", "disconnectConsumer", "writeToFile", "_negotiationSuccessful"]
+
+
+def extract_c06():
+    """CTXinfo of the four record-key derivations (observed by calling the real methods with HKDF
+    replaced by a recorder), SecretBox sizes as the code sees them, and the ordered call skeletons
+    of the `Connection` record-layer methods."""
+    from wormhole import transit as tr
+    from nacl.secret import SecretBox
+
+    def ctx_of(cls, meth):
+        seen = []
+        orig = tr.HKDF
+
+        def rec(key, length, CTXinfo=b"", **kw):
+            seen.append((length, bytes(CTXinfo)))
+            return b"\x00" * length
+        tr.HKDF = rec
+        try:
+            o = cls.__new__(cls)
+            o._transit_key = b"\x01" * 32
+            getattr(o, meth)()
+        except Exception:
+            seen = []
+        finally:
+            tr.HKDF = orig
+        # anything but exactly one derivation is emitted as (0, b""): the theorems then fail, not the translator
+        return seen[0] if len(seen) == 1 else (0, b"")
+    L = ["namespace WV.Gen.C06"]
+    for cname, cls in (("sender", tr.TransitSender), ("receiver", tr.TransitReceiver)):
+        L.append(f"def is_sender_{cname} : Bool := {'true' if cls.is_sender else 'false'}")
+        for mname, meth in (("sendkey", "_sender_record_key"), ("recvkey", "_receiver_record_key")):
+            ln, ctx = ctx_of(cls, meth)
+            L.append(f"def ctx_{cname}_{mname} : List Nat := {lean_bytes(ctx)}")
+            L.append(f"def len_{cname}_{mname} : Nat := {ln}")
+    L.append(f"def NONCE_SIZE : Nat := {SecretBox.NONCE_SIZE}")
+    L.append(f"def KEY_SIZE : Nat := {SecretBox.KEY_SIZE}")
+    L.append(f"def MACBYTES : Nat := {SecretBox.MACBYTES}")
+    L.append("/-- ordered outgoing calls `(guard-shape, callee)` of the `transit.Connection` record-layer methods -/")
+    L.append("def skeleton : String → List (String × String)")
+    for name in C06_SKELETON_METHODS:
+        f = getattr(tr.Connection, name, None)
+        if f is None:
+            sk = [("missing", name)]
+        else:
+            try:
+                sk = skeleton_of(f)
+            except Exception:  # pragma: no cover
+                sk = [("opaque", hashlib.sha256(inspect.getsource(f).encode()).hexdigest()[:12])]
+        items = ", ".join(f"({lean_str(g)}, {lean_str(c)})" for g, c in sk)
+        L.append(f"  | {lean_str(name)} => [{items}]")
+    L.append("  | _ => []")
+    L.append("end WV.Gen.C06")
+    return "\n".join(L) + "\n"
+
+
+# ---------------------------------------------------------------------------
+# transit negotiation (C07): dispatch order of Connection._dataReceived, wire literals, deadlines
+
+def extract_transit():
+    from wormhole import transit as tr
+    L = ["namespace WV.Gen.Transit"]
+    src = textwrap.dedent(inspect.getsource(tr.Connection._dataReceived))
+    fn = ast.parse(src).body[0]
+    arms = []        # the top-level `if self.state == "<literal>":` statements, in source order
+    lits = {}        # bytes literals used inside each arm
+    for st in fn.body:
+        if (isinstance(st, ast.If) and isinstance(st.test, ast.Compare) and len(st.test.ops) == 1
+                and isinstance(st.test.ops[0], ast.Eq) and ast.unparse(st.test.left) == "self.state"
+                and isinstance(st.test.comparators[0], ast.Constant) and isinstance(st.test.comparators[0].value, str)):
+            name = st.test.comparators[0].value
+            arms.append(name)
+            lits[name] = [n.value for b in st.body for n in ast.walk(b)
+                          if isinstance(n, ast.Constant) and isinstance(n.value, bytes)]
+    L.append("/-- `if self.state == …` arms of `Connection._dataReceived`, in source order -/")
+    L.append("def arms : List String := [" + ", ".join(lean_str(a) for a in arms) + "]")
+
+    def one(name):
+        v = lits.get(name, [])
+        return v[0] if len(v) == 1 else b""
+    L.append(f"def RELAY_OK : List Nat := {lean_bytes(one('relay'))}")
+    L.append(f"def GO_EXPECTED : List Nat := {lean_bytes(one('wait-for-decision'))}")
+    L.append(f"def GO : List Nat := {lean_bytes(one('go'))}")
+    L.append(f"def NEVERMIND : List Nat := {lean_bytes(one('nevermind'))}")
+    L.append(f"def TIMEOUT_s : Nat := {int(tr.TIMEOUT)}")
+    L.append(f"def RELAY_DELAY_s : Nat := {int(tr.Common.RELAY_DELAY)}")
+    # the first argument of `self._not_forever(<expr>, winner)` in Common._connect
+    src = textwrap.dedent(inspect.getsource(tr.Common._connect))
+    deadline = 0
+    for n in ast.walk(ast.parse(src)):
+        if isinstance(n, ast.Call) and _call_name(n).endswith("_not_forever") and n.args:
+            deadline = eval(compile(ast.Expression(n.args[0]), "<deadline>", "eval"), {"TIMEOUT": tr.TIMEOUT})
+    L.append(f"def CONNECT_DEADLINE_s : Nat := {int(deadline)}")
+    # strings `connection_ready` can return, in source order
+    src = textwrap.dedent(inspect.getsource(tr.Common.connection_ready))
+    rets = [n for n in ast.walk(ast.parse(src))
+            if isinstance(n, ast.Return) and isinstance(n.value, ast.Constant) and isinstance(n.value.value, str)]
+    rets = [n.value.value for n in sorted(rets, key=lambda n: n.lineno)]
+    L.append("def connection_ready_returns : List String := [" + ", ".join(lean_str(a) for a in rets) + "]")
+    # is the "nevermind" answer guarded by a test of self._winner ?
+    guarded = any(isinstance(n, ast.If) and "_winner" in ast.dump(n.test)
+                  and any(isinstance(r, ast.Return) and isinstance(r.value, ast.Constant) and r.value.value == "nevermind"
+                          for b in n.body for r in ast.walk(b))
+                  for n in ast.walk(ast.parse(src)))
+    L.append(f"def connection_ready_checks_winner : Bool := {'true' if guarded else 'false'}")
+    L.append("end WV.Gen.Transit")
+    return "\n".join(L) + "\n"
+
+
 def main():
     changed = []
     machines = [dump_machine(*m) for m in MACHINES]
@@ -609,6 +743,10 @@ def main():
     hg = extract_hint_guards()
     if write_if_changed(os.path.join(GEN, "HintGuards.lean"), hdr + lean_hint_guards(hg)):
         changed.append("HintGuards")
+    if write_if_changed(os.path.join(GEN, "C06.lean"), hdr + extract_c06()):
+        changed.append("C06")
+    if write_if_changed(os.path.join(GEN, "Transit.lean"), hdr + extract_transit()):
+        changed.append("Transit")
     summary = {
         "machines": len(machines),
         "transitions": sum(len(m["rows"]) for m in machines),
